@@ -26,11 +26,6 @@ def add(id, props, what, match, witness, status="open", **kw):
 
 PRIM_ALL = ["C01", "C02", "C04", "C05", "C07", "C09", "C15"]
 
-add("KF-array-ndmin", ["C01", "C02", "C04", "C05", "C07", "C09"],
-    "np.array(list_of_arrays, ndmin=k) with k larger than the natural rank: VJP returns the cotangent with the extra leading axes (wrong shape), JVP scatters into the wrong slots (wrong value); the rules of array_from_args ignore ndmin",
-    {"prim": "array", "form": "listfun", "kw": {"ndmin": "pos"}, "symptom": ["wrong_shape", "wrong_value", "not_adjoint"]},
-    case("array", [[A(2), A(2)]], {"ndmin": 3}, argnum=0, form="listfun"))
-
 add("KF-diagonal-nonsquare", ["C01", "C04", "C05", "C07", "C09"],
     "np.diagonal(x, 0, -1, -2) (the only axes its VJP supports) of an array whose last two dimensions differ: make_diagonal builds a square block, the cotangent has the wrong shape. A repair needs the argument's shape inside make_diagonal (signature change), so it is recorded, not fixed",
     {"prim": "diagonal", "args": {"0": {"__re__": "[rc][234]n.*"}}, "symptom": ["wrong_shape"]},
@@ -125,6 +120,7 @@ fixed("FX-norm-complex", ["C09", "C05", "C04"], "b7b976c", "linalg.norm of compl
 fixed("FX-select-dtype", ["C06", "C02", "C05"], "40f09be", "autograd.numpy.select returned an integer array (and integer tangents) when no element of a traced float choice was selected",
       {"C06": {"kind": "wrapper", "form": {"name": "select", "args": enc([[c1, c2], [onp.array([1, -3, 2, 5]), onp.array([0.5, 1.5, 2.5, 3.5])]]), "kw": enc({}), "tr": None, "prop": False}},
        "default": P.encode_case(case("select", [[onp.zeros(4, dtype=bool)], [A(4)]], argnum=0, form="selectfun"))})
+fixed("FX-array-ndmin", ["C01", "C02", "C05"], "0fd5721", "np.array(list_of_arrays, ndmin>natural rank): VJP returned a gradient with the prepended axes, JVP scattered into the wrong slot", case("array", [[A(2), A(2)]], {"ndmin": 3}, argnum=0, form="listfun"))
 fixed("FX-where-jvp-broadcast", ["C05", "C02"], "423a953", "forward-mode np.where returned a tangent with the branch's shape/kind instead of the output's", case("where", [cc, A(3), A(2, 2, 3)], argnum=1), witness_mode="fwd")
 
 out = {"_comment": "Known findings: genuine defects of HIPS/autograd that are recorded rather than repaired (status open) and defects repaired by a 'fix:' commit (status fixed; fixed entries suppress nothing - their witnesses are re-run on every check and a failing one is an ordinary VIOLATION). `match` is a conjunction over fields of the case signature (lists = any of; {__re__}: regex; {__has__}: list membership); never a seed, hash or random value. Read-only at run time.", "findings": F}
